@@ -1,4 +1,7 @@
 import Qryn.Proofs.Encode
+import Qryn.Proofs.EncodeMore
+import Qryn.Proofs.EncoderCensus
+import Qryn.Proofs.Regroup
 import Qryn.Gen.C15Enc
 /-! # C15 — query responses are always one well-formed document of the documented shape
 
@@ -6,6 +9,12 @@ Property theorems only. Models: `Qryn.Json` (byte-level RFC 8259 parser, jsonite
 `encoding/json` string writers, compact printer) and `Qryn.Encode` (the chunk machines of
 `exportStreamsValue`, the matrix and vector writers, `Tail`, `GenericLabelReq`, `Series`, Tempo `Tags`/`Values`,
 the PromQL scalar writer — all *after* the `fix:` commits listed in KNOWN_FINDINGS.txt).
+
+Second part (`## the guarded-separator machine` onwards): ONE generic refinement lemma for every list encoder of the
+reader (`Qryn.SepEnc`: separator guarded by the global item counter, any input batching, a chunk buffer flushed by
+any policy) with its instances, the shared-counter counter-pattern, the writers modelled in `Qryn/Read/EncodeMore.lean`
+(Tempo search / TraceQL search / trace, Prometheus vector / matrix, straight-line documents) and the census that
+ties the set of writers, their literal pieces, their separator guards and the batching constants to the source.
 
 Reading guide. `batches : List (List Entry)` is what arrives on the `chan []shared.LogEntry`, batch by batch:
 any number of batches, empty ones included, series split across batches at any place, marker entries
@@ -263,6 +272,291 @@ theorem gen_calls :
     Gen.StreamCall.raw ∉ Gen.writeMapCalls ∧ Gen.StreamCall.str ∈ Gen.writeMapCalls ∧ Gen.StreamCall.field ∈ Gen.writeMapCalls := by
   decide
 
+
+/-! ## the guarded-separator machine: one lemma for every list encoder
+
+`SepEnc.encode pre post pol batches` is the state machine of
+
+    send pre; i := 0; for batch := range ch { for item := range batch { if i != 0 { "," }; item; i++; maybe flush } }; flush; send post
+
+with BOTH counters a chunked writer has: `idx` (items written so far — what the guard reads) and `fill` (items in the
+chunk buffer — what the flush policy may read as well). -/
+
+/-- **sepenc_reference.** For every item list, every input batching and EVERY flush policy (a function of both
+    counters: no buffer, chunks of n, any set of cut positions) the chunks concatenate to the reference rendering
+    `pre ++ intercalate "," items ++ post`. -/
+theorem sepenc_reference (pre post : Bytes) (pol : SepEnc.Policy) (batches : List (List Bytes)) :
+    (SepEnc.encode pre post pol batches).flatten = pre ++ joinTexts batches.flatten ++ post :=
+  SepEnc.encode_flatten pre post pol batches
+
+/-- with `[` / `]` as the outer pieces: `[` ++ intercalate "," items ++ `]` -/
+theorem sepenc_reference_array (pol : SepEnc.Policy) (batches : List (List Bytes)) :
+    (SepEnc.encode [91] [93] pol batches).flatten = 91 :: List.intercalate [44] batches.flatten ++ [93] :=
+  SepEnc.encode_refArr pol batches
+
+/-- **sepenc_separator_reads_global_index.** Two runs of the machine that agree on the global counter and on the
+    buffered bytes write the same concatenation whatever their fill counters and flush policies are: the separator
+    decision depends on `idx` only. (A model of a chunked writer therefore has to say which counter its guard reads;
+    one that reads `fill` is `SepEnc.sharedRun`, below.) -/
+theorem sepenc_separator_reads_global_index (pol pol' : SepEnc.Policy) (st st' : SepEnc.St)
+    (hi : st.idx = st'.idx) (hb : st.buf = st'.buf) (batches : List (List Bytes)) :
+    (SepEnc.runBatches pol st batches).flatten = (SepEnc.runBatches pol' st' batches).flatten :=
+  SepEnc.fill_irrelevant pol pol' st st' hi hb batches
+
+/-- **sepenc_array_valid.** If every item text is a JSON text, the chunks are one JSON array with the items' values
+    in order — for every batching and every flush policy. -/
+theorem sepenc_array_valid (pol : SepEnc.Policy) (batches : List (List (Bytes × JVal)))
+    (h : ∀ p ∈ batches.flatten, Repr p.1 p.2) :
+    parse (SepEnc.encode [91] [93] pol (batches.map (·.map (·.1)))).flatten =
+      some (.arr (batches.flatten.map (·.2)), []) := by
+  rw [SepEnc.encode_flatten]
+  have : (batches.map (·.map (·.1))).flatten = batches.flatten.map (·.1) := (List.map_flatten).symm
+  rw [this]
+  exact parse_of_repr_nil (by simpa using repr_arr batches.flatten h)
+
+/-! ### the shared-counter variant (seeded change C15-4) -/
+
+/-- the shared-counter writer (ONE counter: separator guard, fill count, reset at every flush) is right as long as the
+    whole list fits into one chunk … -/
+theorem shared_counter_ok_upto (pre post : Bytes) (size : Nat) (items : List Bytes) (h : items.length ≤ size) :
+    (SepEnc.sharedEncode pre post size items).flatten = pre ++ joinTexts items ++ post :=
+  SepEnc.shared_ok_upto pre post size items h
+
+/-- … and the first item of the second chunk is taken for the first item of the list: the chunk after a full one is
+    exactly what the writer produces for the remaining items alone -/
+theorem shared_counter_restarts (size : Nat) (hs : 0 < size) (a : List Bytes) (ha : a.length = size) (t : Bytes)
+    (r : List Bytes) : ∃ c cs, SepEnc.sharedRun size 0 [] (a ++ t :: r) = c :: cs ∧ c = joinTexts a ∧
+      cs = SepEnc.sharedRun size 0 [] (t :: r) :=
+  SepEnc.shared_second_chunk_no_comma size hs a ha t r
+
+/-- **shared_counter_counterexample** (kernel-checked): `GenericLabelReq` with chunks of 100 and the chunk fill counter
+    as separator guard, on 101 rows `"v"`: the body `…,"v""v"]}` is not a JSON document; on 100 rows it is. -/
+theorem shared_counter_counterexample :
+    (parseDoc (labelsSharedCounter 100 (List.replicate 101 [118])).flatten).isNone = true ∧
+    (parseDoc (labelsSharedCounter 100 (List.replicate 100 [118])).flatten).isSome = true := by
+  constructor <;> decide +kernel
+
+/-! ### instances: the element lists under any chunking -/
+
+/-- **labels_chunks_concat_valid** (`GenericLabelReq`): the rows arriving in any batching, sent through a chunk buffer
+    flushed by any policy — the concatenation is the document of `labels_doc`. -/
+theorem labels_chunks_concat_valid (pol : SepEnc.Policy) (batches : List (List Bytes)) :
+    parse (listBuffered labelsPre pol (batches.map (·.map stdstr))).flatten =
+      some (statusDataDoc (batches.flatten.map (fun s => .str (sanitize s))), []) := by
+  have hf : (batches.map (·.map stdstr)).flatten = batches.flatten.map stdstr := (List.map_flatten).symm
+  rw [listBuffered_flatten, hf, ← stdItems_texts, ← stdItems_vals]
+  exact parse_of_repr_nil (labels_repr _ (stdItems_repr _))
+
+/-- **series_chunks_concat_valid** (`Series`, stored documents that are JSON texts): any batching, any chunking -/
+theorem series_chunks_concat_valid (pol : SepEnc.Policy) (batches : List (List (Bytes × JVal)))
+    (h : ∀ p ∈ batches.flatten, Repr p.1 p.2) :
+    parse (listBuffered seriesPre pol (batches.map (·.map (·.1)))).flatten =
+      some (statusDataDoc (batches.flatten.map (·.2)), []) := by
+  have hf : (batches.map (·.map (·.1))).flatten = batches.flatten.map (·.1) := (List.map_flatten).symm
+  rw [listBuffered_flatten, hf]
+  exact parse_of_repr_nil (series_repr _ h)
+
+/-- **tags_chunks_concat_valid** / **tagValues_chunks_concat_valid** (Tempo `Tags`, `Values`) -/
+theorem tags_chunks_concat_valid (pol : SepEnc.Policy) (rows : List Bytes) :
+    parse (listBuffered tagsPre pol [rows.map stdstr]).flatten =
+      some (oneKeyDoc kTagNames (rows.map (fun s => .str (sanitize s))), []) := by
+  rw [listBuffered_flatten]
+  simp only [List.flatten_cons, List.flatten_nil, List.append_nil]
+  rw [← stdItems_texts, ← stdItems_vals]
+  exact parse_of_repr_nil (tags_repr _ (stdItems_repr rows))
+
+theorem tagValues_chunks_concat_valid (pol : SepEnc.Policy) (rows : List Bytes) :
+    parse (listBuffered tagValuesPre pol [rows.map stdstr]).flatten =
+      some (oneKeyDoc kTagValues (rows.map (fun s => .str (sanitize s))), []) := by
+  rw [listBuffered_flatten]
+  simp only [List.flatten_cons, List.flatten_nil, List.append_nil]
+  rw [← stdItems_texts, ← stdItems_vals]
+  exact parse_of_repr_nil (tagValues_repr _ (stdItems_repr rows))
+
+/-- the chunk lists of the pinned element-list encoders (`listChunks`: every piece its own chunk) are the buffered
+    machine under "flush every piece", in concatenation; likewise `emitComma` (the vector writer of `QueryInstant`) -/
+theorem pinned_lists_are_sepenc (pre post : Bytes) (items : List Bytes) :
+    (listChunks pre items).flatten = (listBuffered pre eachPiece [items]).flatten ∧
+    (pre :: emitComma 0 items ++ [post]).flatten = (SepEnc.encode pre post eachPiece [items]).flatten :=
+  ⟨listChunks_is_buffered pre items, emitComma_is_sepenc pre post items⟩
+
+/-- **series_machine_is_two_level_sepenc**: the streams / matrix / tail machine `go` (flags `i`, `j`) writes, on the
+    outer level, the guarded-separator rendering of the runs' object texts, and each object's `values` array is, on the
+    inner level, the guarded-separator rendering of the rows' value texts (`printElems` = the machine at counter 0). -/
+theorem series_machine_is_two_level_sepenc (rt : Bytes) (sh : Shape) (rows : List Entry) (h : NoErr rows) :
+    (preamble rt :: Encode.go sh [93, 125, 125] none rows).flatten =
+      (SepEnc.encode (preamble rt) [93, 125, 125] eachPiece [(runs rows).map (fun g => print (seriesObj sh g))]).flatten ∧
+    ∀ e g, print (seriesObj sh (e :: g)) =
+      [123] ++ jstr sh.key ++ [58] ++ print (labelsObj e.labels) ++ [44] ++ jstr kValues ++ [58] ++
+        (91 :: SepEnc.seps 0 ((e :: g).map (fun x => print (sh.value x))) ++ [93]) ++ [125] := by
+  refine ⟨?_, ?_⟩
+  · rw [series_text rt sh rows h, SepEnc.encode_flatten, seriesDoc, print_respDoc, printElems_map]
+    simp [List.map_map, Function.comp_def]
+  · intro e g
+    simp [seriesObj, print, printMembers, printElems_is_seps, List.map_map, Function.comp_def]
+
+/-! ## writers modelled in `Qryn/Read/EncodeMore.lean` -/
+
+/-- **search_chunks_concat_valid** (legacy Tempo `Search`): every element one `json.Marshal(trace)` (trusted to be a
+    JSON text, `Repr`) — the body is `{"traces":[…]}` with the elements' values in order. -/
+theorem search_chunks_concat_valid (items : List (Bytes × JVal)) (h : ∀ p ∈ items, Repr p.1 p.2) :
+    parse (searchBody (items.map (·.1))) = some (oneKeyDoc kTraces (items.map (·.2)), []) := by
+  rw [searchBody_eq]
+  exact parse_of_repr_nil (search_repr items h)
+
+/-- **searchQL_chunks_concat_valid** (TraceQL `Search`): the channel delivers BATCHES of traces (empty ones included);
+    one counter over all batches — the body is `{"traces":[…]}` over the concatenation of the batches. -/
+theorem searchQL_chunks_concat_valid (batches : List (List (Bytes × JVal))) (h : ∀ p ∈ batches.flatten, Repr p.1 p.2) :
+    parse (searchQLBody (batches.map (·.map (·.1)))) = some (oneKeyDoc kTraces (batches.flatten.map (·.2)), []) := by
+  have hf : (batches.map (·.map (·.1))).flatten = batches.flatten.map (·.1) := (List.map_flatten).symm
+  rw [searchQLBody_eq, hf]
+  exact parse_of_repr_nil (search_repr _ h)
+
+/-- **trace_chunks_concat_valid** (JSON branch of Tempo `Trace`): the envelope with its blanks, newlines and tabs and
+    the marshalled spans parse to
+    `{"resourceSpans":[{"resource":{…collector…},"instrumentationLibrarySpans":[{"spans":[…]}]}]}`. -/
+theorem trace_chunks_concat_valid (items : List (Bytes × JVal)) (h : ∀ p ∈ items, Repr p.1 p.2) :
+    parse (traceBody (items.map (·.1))) = some (traceDoc (items.map (·.2)), []) := by
+  rw [traceBody_eq]
+  exact parse_of_repr_nil (trace_repr items h)
+
+/-- **promVector_chunks_concat_valid** (`writeResponse` + `writeVector`): for every sample list whose time tokens are
+    JSON numbers (what jsoniter `WriteFloat64` writes; trusted) the pieces are one document
+    `{"status":"success","data":{"resultType":"vector","result":[{"metric":{…},"value":[t,"v"]},…]}}`. -/
+theorem promVector_chunks_concat_valid (ss : List PromSample) (h : ∀ s ∈ ss, isNumTok s.t = true) :
+    parse (promVectorBody ss) = some (promVectorDoc ss, []) := by
+  rw [promVectorBody_eq]
+  exact parse_of_repr_nil (repr_print _ (promVectorDoc_wf ss h))
+
+/-- **promMatrix_chunks_concat_valid** (`writeResponse` + `writeMatrix`): three nested guarded loops (series, labels,
+    points) -/
+theorem promMatrix_chunks_concat_valid (ss : List PromSeries) (h : ∀ s ∈ ss, ∀ p ∈ s.points, isNumTok p.1 = true) :
+    parse (promMatrixBody ss) = some (promMatrixDoc ss, []) := by
+  rw [promMatrixBody_eq]
+  exact parse_of_repr_nil (repr_print _ (promMatrixDoc_wf ss h))
+
+/-- **straight_line_docs** (`PromError`, `Buildinfo`, the constant answer of `Query`): jsoniter calls without a loop -/
+theorem straight_line_docs (msg ver : Bytes) (now : Int) :
+    parse (print (promErrorDoc msg)) = some (promErrorDoc msg, []) ∧
+    parse (print (buildinfoDoc ver)) = some (buildinfoDoc ver, []) ∧
+    parse (print (queryConstDoc now)) = some (queryConstDoc now, []) :=
+  ⟨parse_of_repr_nil (repr_print _ (promErrorDoc_wf msg)), parse_of_repr_nil (repr_print _ (buildinfoDoc_wf ver)),
+   parse_of_repr_nil (repr_print _ (queryConstDoc_wf now))⟩
+
+/-! ## the regrouping stage in front of the streams encoder (`ResponseOptimizerPlanner`)
+
+`streams_doc` gives one object per RUN of equal fingerprint; `one_object_per_series` turns that into one object per
+stream when each stream's rows are contiguous. On the ClickHouse path contiguity comes from `ORDER BY fingerprint`;
+behind an in-process stage (`| json`, `| logfmt`, `| line_format`, `| label_format`) the rows arrive ordered by time and
+it is `ResponseOptimizerPlanner` that regroups them per fingerprint. -/
+
+/-- with a limit (`ctx.Limit != 0`) the stage sends nothing before its input ends: there is one portion, the whole
+    (limited) result, whatever the threshold -/
+theorem optimizer_holds_when_limited (thr : Nat) (batches : List (List Entry)) :
+    optSegments true thr [] batches = if batches.flatten.length = 0 then [] else [batches.flatten] := by
+  simpa using optSegments_hold thr [] batches
+
+/-- the full statement: whatever the request, the rows the streams encoder receives from the regrouping stage give one
+    object per stream -/
+def optimizer_one_object_full : Prop :=
+  ∀ (hold : Bool) (thr : Nat) (orders : List (List Nat)) (batches : List (List Entry)), (∀ o ∈ orders, o.Nodup) →
+    (runFps (rowsOf (optimizerOut hold thr orders batches).flatten)).Nodup
+
+/-- **optimizer_one_object_partial** (after the `fix:`): for a request WITH a limit — every input batching, every
+    threshold, every order in which Go visits the map — the rows reach the encoder contiguous per fingerprint, so the
+    response has exactly one object per stream (`streams_doc` + `one_object_per_series`). -/
+theorem optimizer_one_object_partial (thr : Nat) (order : List Nat) (hn : order.Nodup) (batches : List (List Entry)) :
+    (runFps (rowsOf (optimizerOut true thr [order] batches).flatten)).Nodup := by
+  rw [optimizerOut, optimizer_holds_when_limited]
+  split
+  · simp [runFps, runs, rowsOf]
+  · simp only [List.zipWith_cons_cons, List.zipWith_nil_right, List.flatten_cons, List.flatten_nil, List.append_nil]
+    rw [regroup_flatten, rowsOf_grouped]
+    exact runFps_nodup _ (contig_grouped order hn _)
+
+/-- … and every stream's rows arrive once, in their order -/
+theorem optimizer_keeps_streams (thr : Nat) (order : List Nat) (hn : order.Nodup) (batches : List (List Entry))
+    (hne : batches.flatten.length ≠ 0) (fp : Nat) (hfp : fp ∈ order) :
+    (optimizerOut true thr [order] batches).flatten.filter (fun e => decide (e.fp = fp)) =
+      batches.flatten.filter (fun e => decide (e.fp = fp)) := by
+  rw [optimizerOut, optimizer_holds_when_limited, if_neg hne]
+  simp only [List.zipWith_cons_cons, List.zipWith_nil_right, List.flatten_cons, List.flatten_nil, List.append_nil]
+  rw [regroup_flatten]
+  exact grouped_keeps_stream order hn _ fp hfp
+
+/-- **optimizer_one_object_counterexample** (finding `C15/inproc/unlimited-series-objects`): without a limit, two
+    streams whose rows alternate across a portion boundary come out as four objects (threshold 2 here; 3000 in the
+    code, regenerated in `Gen.C15Batch`) -/
+theorem optimizer_one_object_counterexample : ¬ optimizer_one_object_full := by
+  intro h
+  have := h false 2 [[1, 2], [1, 2]]
+    [[⟨.none, 1, [], 1, [], []⟩, ⟨.none, 2, [], 2, [], []⟩], [⟨.none, 1, [], 3, [], []⟩, ⟨.none, 2, [], 4, [], []⟩]]
+    (by decide)
+  revert this
+  decide
+
+/-- **gen_optimizer_hold**: the condition under which the stage sends nothing after an input batch is the one the model's
+    `hold` flag stands for -/
+theorem gen_optimizer_hold : Gen.optimizerHoldCond = "size < 3000 || ctx.Limit != 0" := by decide
+
+/-! ## the census: which code the theorems above are about -/
+open Qryn.EncoderCensus in
+/-- **encoder_census.** `Gen.ResponseWriters.writers` lists every place under reader/ that writes (a piece of) a response
+    body: sends on a `chan string` / `chan model.QueryRangeOutput` (or of a value that is syntactically a string chunk;
+    a send the translator cannot type is listed as `send?`), `Write`/`Fprint*`/`Encode` on an `http.ResponseWriter`,
+    websocket messages, calls on a jsoniter `Stream` (methods with their counts) — per (file, function, kind) with the
+    pieces in source order. The theorem says that this regenerated list is EXACTLY the reviewed one, in which every entry
+    is classified: modelled (with the model and the theorem), relay of a modelled encoder, delegated to ONE library
+    marshalling call (encoding/json, protojson, proto — trusted), constant document, straight-line jsoniter document,
+    element channel, error body, plain text. A new piecewise writer, a new piece or a reordered piece in an existing
+    one, a new Stream method fails this theorem until the entry has been reviewed. -/
+theorem encoder_census : Gen.ResponseWriters.writers = reviewed.map Entry.site := census_checked
+
+open Qryn.EncoderCensus in
+/-- **constant_docs_json**: the literal documents (`Rules`, `Metadata` ×2, `Values` with an empty name, `Series`
+    without a request, the idle `Tail` frame) parse as JSON documents -/
+theorem constant_docs_json :
+    ∀ c ∈ constantPieces, ((litsOf c.1 c.2.1)[c.2.2]?.bind parseDoc).isSome = true := constants_parse
+
+open Qryn.EncoderCensus in
+/-- **gen_literals**: the string-literal pieces of the modelled writers in the source are the opening, separator and
+    closing bytes the models use (`labelsPre`, `seriesPre`, `tagsPre`, `tagValuesPre`, `searchPre` in both branches,
+    `tracePre`/`tracePost` with their whitespace, `,`, `]}`, `]}}`) -/
+theorem gen_literals :
+    litsOf "QueryLabelsService.GenericLabelReq" "send" = [labelsPre, [44], [93, 125]] ∧
+    litsOf "QueryLabelsService.Series" "send" = [seriesEmptyDoc, seriesPre, [44], [93, 125]] ∧
+    litsOf "QueryLabelsService.Values" "send" = [valuesEmptyDoc] ∧
+    litsOf "TempoController.Tags" "write" = [tagsPre, [44], [93, 125]] ∧
+    litsOf "TempoController.Values" "write" = [tagValuesPre, [44], [93, 125]] ∧
+    litsOf "TempoController.Search" "write" = [searchPre, [44], [93, 125], searchPre, [44], [93, 125]] ∧
+    litsOf "TempoController.Trace" "write" = [tracePre, [44], tracePost] ∧
+    litsOf "writeResponse" "write" = [[93, 125, 125]] ∧
+    litsOf "writeVector" "write" = [[44]] ∧
+    litsOf "writeMatrix" "write" = [[44]] ∧
+    litsOf "onErr" "send" = [[93, 125, 125]] ∧
+    litsOf "QueryRangeController.Tail" "ws" = [tailEmptyDoc] := literals_checked
+
+open Qryn.EncoderCensus in
+/-- **sep_counters_never_reset.** Every `if <counter compared with 0> { write a piece }` of the writers is the reviewed
+    one, with every assignment to the counter; and no such counter is ever put back to 0 after its initialisation except
+    the per-object value counter `j` of the three two-level series machines. This is the hypothesis under which a
+    writer is an instance of `SepEnc.run` and not of `SepEnc.sharedRun`: the guard reads the global index. -/
+theorem sep_counters_never_reset :
+    Gen.ResponseWriters.guards = reviewedGuards ∧
+    ∀ g ∈ Gen.ResponseWriters.guards, g.2.2.2.2.any isReset = true → g.2.2.1 = "j > 0" ∧ g.2.1 ∈ twoLevel :=
+  ⟨guards_checked, no_reset_checked⟩
+
+open Qryn.EncoderCensus in
+/-- **batch_constants_reviewed.** The integer literals ≥ 2 in comparisons and `make` sizes of the writers and of every
+    function under reader/ that sends on a channel are the reviewed ones (each with its role); the getter's batch
+    size is one number (`Gen.C15Batch.getterBatch`). The generators read this list from the driver and put size classes
+    around every value. -/
+theorem batch_constants_reviewed :
+    Gen.C15Batch.consts = reviewedConsts.map (·.1) ∧
+    ∀ c ∈ Gen.C15Batch.consts, (c.2.1 = "ClickhouseGetterPlanner.Scan" ∨ c.2.1 = "ClickhouseGetterPlanner.ScanMatrix") →
+      c.2.2.2 = Gen.C15Batch.getterBatch :=
+  ⟨consts_checked, getter_batch_checked⟩
+
 /-! ## non-vacuity -/
 -- a batching with an empty batch, a series split over two batches, fingerprint 0 first, a marker entry
 private def eg : List (List Entry) :=
@@ -284,5 +578,12 @@ example : Repr quotedDoc (.null) → False := by
   have h2 : (parse quotedDoc).isNone = true := by decide +kernel
   rw [this] at h2
   cases h2
+
+-- the generic machine with a real buffer: chunks of 2 over 5 items in batches [2,0,3] — three chunks, the last one short
+example : SepEnc.runBatches (SepEnc.everyN 2) SepEnc.St.init [[[97], [98]], [], [[99], [100], [101]]] =
+    [[97, 44, 98], [44, 99, 44, 100], [44, 101]] := by decide
+-- … and the shared-counter writer on the same input drops the comma at every chunk start
+example : SepEnc.sharedRun 2 0 [] [[97], [98], [99], [100], [101]] = [[97, 44, 98], [99, 44, 100], [101]] := by decide
+example : isNumTok [49, 55, 48, 48, 46, 53] = true := by decide
 
 end Qryn.C15
